@@ -43,7 +43,8 @@ SCENARIOS = {
     "long_names": [{"p": "r/d/" + "A" * 255, "k": "file", "c": ["base", 200, 1]}, {"p": "r/d/" + "B" * 255, "k": "file", "c": ["base", 200, 1]},
                    {"p": "r/e/" + "C" * 230, "k": "file", "c": ["base", 200, 1]}, {"p": "r/e/" + "D" * 231, "k": "file", "c": ["base", 200, 1]}],
 }
-OPS = ["remove", "link", "softlink", "dedupe_emulated", "dedupe_native", "move_rename", "move_copy", "move_known_mount"]
+OPS = ["remove", "link", "softlink", "dedupe_emulated", "dedupe_native", "move_rename", "move_copy", "move_known_mount",
+       "move_occupied"]   # move_occupied: every destination path already holds an unrelated file
 
 
 def prepare(tier):
@@ -75,7 +76,7 @@ def cases(tier, seed):
 def op_args(op, sc, case):
     if op.startswith("dedupe"):
         return "dedupe", None
-    if op == "move_rename":
+    if op in ("move_rename", "move_occupied"):
         return "move", os.path.join(sc.root, "moved")
     if op == "move_copy":
         return "move", os.path.join(C.EXT4, "fcv.%d.c05mv" % os.getpid())
@@ -291,6 +292,14 @@ def _evaluate(case):
             if target:
                 C.rmtree(target)
             C.make_tree(sc.tree, SCENARIOS[scenario])
+            if op == "move_occupied":
+                k = 0
+                for e in SCENARIOS[scenario]:
+                    tp = target + sc.path(e["p"]).decode()
+                    os.makedirs(os.path.dirname(tp), exist_ok=True)
+                    with open(tp, "wb") as f:
+                        f.write(b"already there, unique %d" % k)
+                    k += 1
         try:
             rebuild()
             report = D.make_report(sc, [], ["r"])
@@ -329,7 +338,7 @@ def _evaluate(case):
                 plan = [tuple(case["only"])]
             for (k, fault, k2) in plan:
                 rebuild()
-                before = C.inventory(sc.tree)
+                before = C.inventory(sc.tree, target) if (target and os.path.lexists(target)) else C.inventory(sc.tree)
                 evals += 1
                 if fault == "kill":
                     res = S.run_with_shim(sc, args, roots, "m", stdin=report, mode="kill", at=k, emulate_clone=emulate,
